@@ -59,7 +59,7 @@ def _raster(rng, maxside=12, allow_nonfinite=True, classes=None):
         a = gen.values(rng, (H, W), cls, 'float64')
     if allow_nonfinite and a.dtype.kind == 'f' and rng.random() < 0.6:
         a = gen.sprinkle(a, rng, float(rng.choice([0.05, 0.2])), what=(np.nan, np.inf, -np.inf), where='random').astype(a.dtype)
-    return cls, a
+    return cls, gen.rand_layout(a, rng)
 
 
 def _common(rec, fname, a, out, k, pay, dask=False):
